@@ -56,3 +56,17 @@ Definition dv_from_postings {X} (docs : list (N * X)) (dict : list (str * list h
 
 Definition dv_run (b : batch) : list (str * list (N * list str)) :=
   map (fun f => (f, dv_from_postings (indexed b) (spec_dict b f))) (filter (is_dv_field b) (spec_fields b)).
+
+(* ---------- the stored-field pass of the builder (new.go writeStoredFields): the instances of a
+   document are visited in order and each stored one is appended to the bucket of its field; the
+   buckets are then written in field-id order ---------- *)
+Definition sval_of (f : str) (i : field) : sval := {| s_field := f; s_typ := f_typ i; s_val := f_val i; s_ap := f_ap i |}.
+Definition bucket_add (bk : list (str * list sval)) (i : field) : list (str * list sval) :=
+  if f_stored i
+  then map (fun e => if seqb (f_name i) (fst e) then (fst e, snd e ++ [sval_of (fst e) i]) else e) bk
+  else bk.
+Definition stored_pass (fs : list str) (d : doc) : list sval :=
+  concat (map snd (fold_left bucket_add (d_fields d) (map (fun f => (f, [])) fs))).
+Definition stored_run (b : batch) : list (list sval) :=
+  let fs := filter (fun s => negb (seqb s id_name)) (spec_fields b) in
+  map (fun d => {| s_field := id_name; s_typ := 116; s_val := doc_id d; s_ap := [] |} :: stored_pass fs d) b.
